@@ -510,7 +510,7 @@ impl C14 {
 }
 
 pub fn run(rep: &Reporter) -> Coverage {
-    let workdir = format!("/verif/.work/{}", std::process::id());
+    let workdir = crate::util::work_dir("w");
     std::fs::create_dir_all(&workdir).expect("workdir");
     let oracle = C14 { probes: AtomicU64::new(0), errs: AtomicU64::new(0), workdir: workdir.clone() };
     let mut cov = Coverage::default();
@@ -560,7 +560,7 @@ pub fn replay(rep: &Reporter, case: &Value) {
         println!("   {}", o.short());
     }
     println!("  invalid request: {} via {}", case["invalid"], case["entry"]);
-    let workdir = format!("/verif/.work/{}", std::process::id());
+    let workdir = crate::util::work_dir("w");
     std::fs::create_dir_all(&workdir).expect("workdir");
     let oracle = C14 { probes: AtomicU64::new(0), errs: AtomicU64::new(0), workdir: workdir.clone() };
     oracle.probe_state(rep, &hist, &replay_model(&hist), 0);
